@@ -730,9 +730,9 @@ func (c *fnCtx) invoke(in ssa.Instruction, cc *ssa.CallCommon, args []*Val, rt t
 	switch {
 	case strings.HasSuffix(rtyp, "gopacket.SerializeBuffer") && (name == "PrependBytes" || name == "AppendBytes"):
 		c.addObl("pre", pos, "(>= "+args[0].T[0]+" 0)", "")
+		fresh := c.newRef("sbuf")
 		r := c.freshVal(rt, "pb")
 		sl, er := r.F[0], r.F[1]
-		fresh := c.newRef("sbuf")
 		// the returned window is memory owned by the buffer: not the decoder input, unspecified contents
 		c.em.assert(fmt.Sprintf("(=> (= %s 0) (and (= %s %s) (= %s %s) (= %s 0)))", er.T[0], sl.T[2], args[0].T[0], sl.T[0], fresh, sl.T[1]))
 		c.havocByteArray(fresh)
